@@ -190,6 +190,10 @@ func (w *world) buildWeak() (*built, string) {
 	used := map[uint32]bool{}
 	ks := &tinkpb.Keyset{}
 	b := &built{weakKeyName: name, classes: []string{wk.class}}
+	if wk.rule == "" {
+		b.weakKeyName = "" // an exotic but valid key: nothing is expected to refuse it
+		w.r.Probe("exotic-valid-key")
+	}
 	if wk.sibling != "" && w.cfg.prot != "public" {
 		nSib := rapid.IntRange(0, 2).Draw(t, "weakSiblings")
 		if nSib > 0 {
@@ -332,6 +336,12 @@ func (w *world) buildKeyset(label string, maxKeys int, fixedClass string) *built
 		t.Fatalf("harness: %v", err)
 	}
 	ks := insecurecleartextkeyset.KeysetMaterial(h0)
+	if ks == nil {
+		// the handle tink just handed out cannot be exported; its accessors are the next thing a caller would use
+		w.guard("accessors-of-built-handle", func() { _ = h0.KeysetInfo(); _ = h0.String() })
+		core.CountGlobal("built-handle-not-exportable")
+		t.Skip("built handle cannot be exported")
+	}
 	// sometimes a key of a custom key type (legacy adapters), in its private / symmetric form
 	if url, ok := stubkm.ClassURL(class); ok && rapid.IntRange(0, 5).Draw(t, label+"Stub") == 5 {
 		pfx := rapid.SampledFrom([]string{"TINK", "LEGACY", "RAW", "CRUNCHY"}).Draw(t, label+"StubPrefix")
@@ -371,8 +381,11 @@ func (w *world) buildKeyset(label string, maxKeys int, fixedClass string) *built
 		w.r.Violation("C14/handle-drops-keys", fmt.Sprintf("in-memory keyset holds %d keys, the accepted handle %d", len(ks.Key), sh.n))
 	}
 	if w.cfg.prot == "public" {
-		hp, err := h.Public()
-		if err != nil {
+		var hp *keyset.Handle
+		var err error
+		// h is an accepted handle: taking its public half is "using" it and must not panic
+		w.guard("public-of-accepted-handle", func() { hp, err = h.Public() })
+		if err != nil || hp == nil {
 			t.Fatalf("harness: Public(): %v", err)
 		}
 		if unknown {
